@@ -72,7 +72,11 @@ func storeItems() []storeItem {
 				step(func() { rawdb.ReadWorkObjectBody(db, hash, types.BlockObject) })
 				step(func() { rawdb.ReadWorkObjectBodyHeaderOnly(db, hash) })
 				step(func() { rawdb.HasHeader(db, hash, num); rawdb.HasBody(db, hash, num) })
-				step(func() { rawdb.ReadHeaderNumber(db, hash); rawdb.ReadCanonicalHash(db, num); rawdb.ReadAllHashes(db, num) })
+				step(func() {
+					rawdb.ReadHeaderNumber(db, hash)
+					rawdb.ReadCanonicalHash(db, num)
+					rawdb.ReadAllHashes(db, num)
+				})
 				step(func() { pokeWo(rawdb.ReadHeadBlock(db), types.BlockObject) })
 			}
 		}, []func() proto.Message{pm[types.ProtoWorkObjectHeader](), pm[types.ProtoWorkObjectBody]()}},
